@@ -255,9 +255,8 @@ def run(ctx):
         inline=lambda p: not (p.startswith('parse::IndicesToIds') or p.startswith('emit::IdsToIndices')))
     dec = Evaluator(F, dec_pol)
     enc = Evaluator(F, enc_pol)
-    emit_self = ctor(EMIT, 'Emit', [('indices', sym('eindices')), ('local_indices', sym('local_indices')),
-                                    ('blocks', sym('blocks')), ('block_kinds', sym('block_kinds')),
-                                    ('encoder', sym('encoder')), ('map', NONE)])
+    import flowlib
+    _, emit_self, _unk = flowlib.emit_self(F)
     n_enabled = n_disabled = 0
     elided = []
     res.pending = {}     # (name, slotkey, msg) -> {'labels': set, 'detail':..}
